@@ -62,7 +62,7 @@ def firstBad {β} (xs : List β) (p : Nat → β → Option String) : String :=
   if bad.isEmpty then "ok" else "bad@" ++ String.intercalate "," (bad.take 8)
 
 
-/-- one dumped node: `id:scale:nchildren:maxdist:parentdist` -/
+/-- one dumped node: `id/scale/nchildren/maxdist/parentdist` -/
 structure Rec where
   p : Nat
   scale : Nat
@@ -70,9 +70,15 @@ structure Rec where
   maxDist : Int
   parentDist : Int
 
+/-- an integer printed by `vh::num`: plain, or `m:e` (= m·2^e) for large magnitudes -/
+def intOf (s : String) : Option Int :=
+  match parseRat s with
+  | some q => if q.den = 1 then some q.num else none
+  | none => none
+
 def parseRec (s : String) : Option Rec :=
-  match s.splitOn ":" with
-  | [a, b, c, d, e] => do pure ⟨← a.toNat?, ← b.toNat?, ← c.toNat?, ← d.toInt?, ← e.toInt?⟩
+  match s.splitOn "/" with
+  | [a, b, c, d, e] => do pure ⟨← a.toNat?, ← b.toNat?, ← c.toNat?, ← intOf d, ← intOf e⟩
   | _ => none
 
 mutual
